@@ -243,11 +243,12 @@ def PassFiles.includedOnly (p : PassFiles) : List String := [p.unityEntHdr, p.un
 /-- `name.resize( name.length() - 2 ); name.append( "h" )` -/
 def ccToH (s : String) : String := String.ofList (s.toList.take (s.length - 2)) ++ "h"
 
-/-- `SCHEMAprint(schema, …, suffix)`: file names.  `none` = a fixed buffer is overrun (`StrToUpper`'s
-    `newword[MAX_LEN+1]`, `sprintf(schnm, …)` into `char[MAX_LEN+1]`): undefined behaviour. -/
+/-- `SCHEMAprint(schema, …, suffix)`: file names.  `none` = not reached: `print_file` refuses the whole input
+    (exit 1, before any file is created) when an identifier is longer than `MAX_IDENT_LEN`; so `StrToUpper`'s own stop
+    at MAX_LEN characters is never exercised and `schnm` is built from the full upper-cased name. -/
 def schemaPass (s : Schema) (suffix : Nat) : Option PassFiles :=
-  let schnm := schemaFilePrefix ++ strToUpper s.name
-  if schnm.length > maxLen then none else
+  if s.name.length > maxIdentLen then none else
+  let schnm := snprintfN maxLen (schemaFilePrefix ++ strToUpper s.name)
   let sufnm := if suffix == 0 then snprintfN maxLen schnm else snprintfN maxLen (schnm ++ "_" ++ toString suffix)
   let inc := snprintfN maxLen (sufnm ++ ".h")
   -- `np = fnm + strlen(fnm) - 1; sprintf(np, "cc")`: the last character of the (possibly truncated) name is replaced
@@ -258,11 +259,21 @@ def schemaPass (s : Schema) (suffix : Nat) : Option PassFiles :=
          init := if suffix ≤ 1 then some (snprintfN maxLen (schnm ++ ".init.cc")) else none,
          unityEntImpl := uE, unityEntHdr := ccToH uE, unityTypeImpl := uT, unityTypeHdr := ccToH uT }
 
-/-- what multpass.c does for files without cross-schema dependencies on enumerations/selects/supertypes:
-    every schema is printed once, with suffix 0.  `none`: not modelled. -/
-def passes (f : SchemaFile) : Option (List Nat) :=
+/-- what multpass.c does for files without cross-schema dependencies: a schema that has at least one type or entity
+    is printed once, with suffix 0; a schema with neither is **not printed at all** (`if( val1 || val2 )`: checkTypes
+    and checkEnts find nothing to process).  `none`: some schema has an interface clause — pass structure not modelled. -/
+def passes (f : SchemaFile) : Option (Schema → List Nat) :=
   if f.schemas.all (fun s => s.decls.all fun | .type t => !t.foreign | .entity e => !e.foreign | .other _ => true)
-  then some [0] else none
+  then some fun s => if s.types.isEmpty && s.entities.isEmpty then [] else [0]
+  else none
+
+def declName : Decl → String
+  | .entity e => e.name | .type t => t.name | .other n => n
+
+/-- `check_identifier_lengths`: every schema and declaration name (attributes and enumeration items are below the
+    level of this model) has at most `MAX_IDENT_LEN` characters -/
+def accepts (f : SchemaFile) : Bool :=
+  f.schemas.all fun s => s.name.length ≤ maxIdentLen && s.decls.all fun d => (declName d).length ≤ maxIdentLen
 
 /-- all-or-nothing sequencing of outcomes (`none` = undefined behaviour somewhere) -/
 def allSome {α : Type} : List (Option α) → Option (List α)
@@ -277,8 +288,9 @@ def schemaAll (s : Schema) (sufs : List Nat) : Option (List String) :=
   | some ps => some (ps.flatMap PassFiles.listedPart ++ typeFiles s ++ entityFiles s ++ ps.flatMap PassFiles.includedOnly)
   | none => none
 
-/-- everything exp2cxx creates in its working directory for the file -/
+/-- everything exp2cxx creates in its working directory for the file; `none` = the input is refused (exit 1) -/
 def created (f : SchemaFile) (sufs : Schema → List Nat) : Option (List String) :=
+  if !accepts f then none else
   match allSome (f.schemas.map fun s => schemaAll s (sufs s)) with
   | some l => some (fixedFiles ++ l.flatten)
   | none => none
